@@ -31,9 +31,31 @@ type closeFailCase struct {
 	After   []string `json:"after"` // data | bad-seq | close, in this order
 	Unsent  int      `json:"unflushed_bytes_written_locally"`
 	Reader  bool     `json:"reader_blocked_in_read"`
+	Answer  string   `json:"peer_answers_close_with,omitempty"` // mode answered
+	Local   string   `json:"local_side,omitempty"`              // mode answered
 }
 
-var closeFailModes = []string{"timeout", "timeout", "error-reply", "write-fails", "concurrent-data"}
+var closeFailModes = []string{"timeout", "answered", "answered", "write-fails", "concurrent-data"}
+
+// closeAnswers: what the peer says to the library's <close/>.  Whatever it is,
+// the peer has spoken: the stream is over for both sides.
+var closeAnswers = []string{"result", "item-not-found", "service-unavailable", "not-acceptable", "feature-not-implemented", "no-payload", "empty-error"}
+
+// closeLocals: what the local side is doing when Close is called.
+var closeLocals = []string{"read-blocked", "write-blocked", "nothing"}
+
+func closeAnswer(kind, id string) string {
+	head := fmt.Sprintf(`<iq type='error' id='%s' from='%s' to='%s'>`, id, peerAddr, libAddr)
+	switch kind {
+	case "result":
+		return fmt.Sprintf(`<iq type='result' id='%s' from='%s' to='%s'/>`, id, peerAddr, libAddr)
+	case "no-payload":
+		return head + "</iq>"
+	case "empty-error":
+		return head + "<error/></iq>"
+	}
+	return head + fmt.Sprintf(`<error type='cancel'><%s xmlns='%s'/></error></iq>`, kind, nsStanzas)
+}
 
 func genCloseFail(r *rand.Rand, idx int) *closeFailCase {
 	cf := &closeFailCase{Kind: "close-fail", Seed: r.Int63()}
@@ -45,6 +67,18 @@ func genCloseFail(r *rand.Rand, idx int) *closeFailCase {
 	after := []string{"data", "bad-seq", "close", "data"}
 	r.Shuffle(len(after), func(i, j int) { after[i], after[j] = after[j], after[i] })
 	cf.After = after[:1+r.Intn(len(after))]
+	if cf.Mode == "answered" {
+		q := idx / 20
+		ord := (q/5)*2 + q%5 - 1 // the how-manieth answered case this is
+		cf.Answer = closeAnswers[ord%len(closeAnswers)]
+		cf.Local = closeLocals[ord%len(closeLocals)]
+		cf.Carrier = "iq"
+		cf.Reader = cf.Local == "read-blocked"
+		cf.After = after // all of them: the whole contract for the dead sid
+		if cf.Local == "write-blocked" {
+			cf.Unsent = 0
+		}
+	}
 	return cf
 }
 
@@ -138,6 +172,7 @@ func execCloseFail(c *core.Case, cf *closeFailCase) {
 		}()
 	}
 	closeFailed := false
+	answered := false // the peer has answered the <close/>: the stream is over, whatever the answer
 	sessionUsable := true
 	switch cf.Mode {
 	case "timeout":
@@ -158,8 +193,32 @@ func execCloseFail(c *core.Case, cf *closeFailCase) {
 			c.Inconclusive("Close with a write deadline did not return")
 			return
 		}
-	case "error-reply":
-		callClose()
+	case "answered":
+		var wres chan error
+		if cf.Local == "write-blocked" {
+			// a writer is inside Flush, its packet unacknowledged, when Close is
+			// called; the acknowledgement comes, then the <close/> goes out
+			wres = make(chan error, 1)
+			go func() {
+				var werr error
+				c.Guard("ibb.Conn.Write", func() {
+					if _, werr = conn.Write(payload(cf.Seed, 2, 3)); werr == nil {
+						werr = conn.Flush()
+					}
+				})
+				wres <- werr
+			}()
+			held := rp.expect(isOwnData, hardLimit)
+			if held == nil {
+				c.Inconclusive("the writer's packet never came")
+				return
+			}
+			callClose()
+			time.Sleep(2 * time.Millisecond) // let Close queue behind the writer
+			rp.send(fmt.Sprintf(`<iq type='result' id='%s' from='%s' to='%s'/>`, held.Attr("id"), peerAddr, libAddr))
+		} else {
+			callClose()
+		}
 		if cf.Unsent > 0 {
 			ackOwnData(grace)
 		}
@@ -168,14 +227,30 @@ func execCloseFail(c *core.Case, cf *closeFailCase) {
 			c.Inconclusive("Close sent no <close/>")
 			return
 		}
-		rp.send(fmt.Sprintf(`<iq type='error' id='%s' from='%s' to='%s'><error type='cancel'><service-unavailable xmlns='%s'/></error></iq>`, cl.Attr("id"), peerAddr, libAddr, nsStanzas))
+		rp.send(closeAnswer(cf.Answer, cl.Attr("id")))
 		select {
 		case cerr := <-closeRes:
 			closeFailed = cerr != nil
 		case <-time.After(hardLimit):
-			c.Inconclusive("Close did not return after its <close/> was answered with an error")
+			if pk := findWedged(base); pk != nil {
+				c.Violate(stall.Key(*pk), "Close never returns after its <close/> was answered (%s):\n%s", cf.Answer, pk.Stack)
+			} else {
+				c.Inconclusive("Close did not return after its <close/> was answered (%s)", cf.Answer)
+			}
 			return
 		}
+		if wres != nil {
+			select {
+			case <-wres:
+			case <-time.After(hardLimit):
+				c.Inconclusive("the blocked writer did not return")
+				return
+			}
+		}
+		answered = true
+		c.Count("close_answered_cases", 1)
+		c.Count("close_answered_"+cf.Answer, 1)
+		c.Count("close_answered_while_"+cf.Local, 1)
 	case "write-fails":
 		// the transport refuses the next write: whatever Close sends first
 		_, w, _ := rp.p.Lib.Ops()
@@ -260,7 +335,7 @@ func execCloseFail(c *core.Case, cf *closeFailCase) {
 
 	// The speaker goes on naming the sid.
 	peerCloseAccepted := false
-	streamGone := false
+	streamGone := answered
 	for i, what := range cf.After {
 		if cf.Mode == "concurrent-data" && what != "data" {
 			continue
@@ -337,6 +412,64 @@ func execCloseFail(c *core.Case, cf *closeFailCase) {
 	}
 	if sessionUsable {
 		c.Count("serve_loop_alive_after_failed_close", 1)
+	}
+	if answered {
+		// the rest of the contract of a finished close handshake
+		if rd != nil && !stall.WaitDone(rd.done, grace) {
+			for _, pk := range newParked(base, isReadFrame) {
+				if pk.ID == rd.goroutine() {
+					c.Violate("ibb:eof:missing:local-close-answered", "Close returned (err=%v) after the peer answered its <close/> with %s, but the Read that was blocked is never unblocked (%s):\n%s", closeFailed, cf.Answer, stall.Key(pk), pk.Stack)
+					return
+				}
+			}
+			if !stall.WaitDone(rd.done, hardLimit) {
+				c.Inconclusive("the blocked Read did not return after Close")
+				return
+			}
+		}
+		second := make(chan error, 1)
+		go func() {
+			var err error
+			c.Guard("ibb.Conn.Close(second)", func() { err = conn.Close() })
+			second <- err
+		}()
+		select {
+		case <-second:
+		case <-time.After(hardLimit):
+			c.Inconclusive("a second Close did not return")
+			return
+		}
+		// the handler has forgotten the stream: the same sid can be opened anew
+		conn2 := rp.openAccepted(c, ln, sid, 4096, cf.Carrier)
+		if conn2 == nil {
+			if !c.Violated() {
+				c.Violate("ibb:open:listener-refused", "after the closed stream %q a new <open/> with the same sid was not handed to Accept", sid)
+			}
+			return
+		}
+		rd2 := startReader(conn2, 64, 0, cf.Seed)
+		fresh := payload(cf.Seed, 9, 6)
+		id := rp.data(cf.Carrier, sid, 0, base64.StdEncoding.EncodeToString(fresh))
+		if rep := rp.expect(byID(id), hardLimit); rep == nil || rep.Attr("type") != "result" {
+			c.Violate("ibb:refusal:valid-packet", "first packet of the stream re-opened under the sid of a closed one was answered with %v", rep)
+			return
+		}
+		if rep := rp.closeSID(sid); rep == nil || rep.Attr("type") != "result" {
+			c.Violate("ibb:close:refused", "<close/> of the re-opened stream answered with %v", rep)
+			return
+		}
+		if !stall.WaitDone(rd2.done, hardLimit) {
+			c.Inconclusive("reader of the re-opened stream did not end")
+			return
+		}
+		if got, rerr := rd2.snapshot(); string(got) != string(fresh) || rerr != io.EOF {
+			c.Violate("ibb:corrupt:receiver", "re-opened stream: sent %x and closed, reader got %x then %v", fresh, got, rerr)
+			return
+		}
+		c.Count("post_close_contract_checked", 1)
+		c.Count("close_fail_cases", 1)
+		c.Sig("close-answered %s local=%s close-err=%v", cf.Answer, cf.Local, closeFailed)
+		return
 	}
 	// The reader: if the speaker's own <close/> was accepted the stream ended
 	// in the regular way for this side: drain, then EOF.
